@@ -30,6 +30,7 @@ let show_etok = function
 let dispatch (t : string list) : string =
   match t with
   | "expr" :: b :: rest -> Cases.run_expr (backend_of b) (Sexp.parse (String.concat " " rest))
+  | "entry" :: b :: rest -> Cases.run_entry (backend_of b) (Sexp.parse (String.concat " " rest))
   | "stmt" :: b :: rest -> Cases.run_stmt (backend_of b) (Sexp.parse (String.concat " " rest))
   | ["etok"; b; h] ->
       (match eng_tokens (backend_of b) (str_of_hex h) with
